@@ -113,7 +113,9 @@ func replayAny(o *Out, lines []string) {
 				h.noise(int(atoi(f[1])))
 			}
 		case "query":
-			if h != nil && len(f) > 1 {
+			if h != nil && len(f) > 1 && f[1] == "9" {
+				h.bystanderStep(NewRng(uint64(len(lines)))) // another hand in the same process takes a few steps
+			} else if h != nil && len(f) > 1 {
 				h.query(int(atoi(f[1])))
 			}
 		case "view":
